@@ -1003,9 +1003,16 @@ static int cmp_large(void const *lhs, void const *rhs)
     return (a < b) - (a > b);
 }
 
+/* the value lives in byte 0; the rest of the element is written too, so that a node smaller than the queue's current
+   element size (seeded change C05-17) is an ASan report at the push that received it */
+static a_que *put_q;
 static void put(void *p, long v)
 {
-    if (p) { *(unsigned char *)p = (unsigned char)v; }
+    if (p)
+    {
+        if (put_q && put_q->siz_ > 1) { memset((unsigned char *)p + 1, 0xA5, put_q->siz_ - 1); }
+        *(unsigned char *)p = (unsigned char)v;
+    }
 }
 
 /* element destructor handed to a_que_dtor / a_que_die on every second reset */
@@ -1036,6 +1043,7 @@ static int run_q(char const *op, char **t, int n, long *res)
     int const s = n > 0 ? (t[0][0] == '1' || t[0][0] == 'B') : 0;
     int const alt = (int)(++opno & 1); /* every second operation through the alias macro */
     a_que *const q = que[s];
+    put_q = q;
     *res = 0;
     trace[0] = 0;
     expect_node = 0;
@@ -1150,6 +1158,7 @@ static void selftest_q(void)
         for (i = 1; i <= 3; ++i)
         {
             expect_node = 1;
+            put_q = q;
             put(a_que_push_back(q), i);
             expect_node = 0;
         }
